@@ -43,6 +43,7 @@ type step struct {
 	Row []cell    `json:"row"`
 	Set []setItem `json:"set"`
 	K   int       `json:"k"` // mutation number
+	X   bool      `json:"x"` // the statement also names the column zz, which the table does not have
 }
 
 type request struct {
@@ -332,11 +333,14 @@ func run(req request) result {
 					cols = append(cols, colName(j+1))
 					lits = append(lits, l)
 				}
+				if s.X {
+					cols, lits = append(cols, "zz"), append(lits, "1")
+				}
 				if len(cols) == 0 {
 					return result{Err: "a row of NULLs cannot be written as SQL text"}
 				}
 				q := "INSERT INTO t (" + strings.Join(cols, ", ") + ") VALUES (" + strings.Join(lits, ", ") + ")"
-				if len(cols) == len(vals) && s.K%2 == 0 {
+				if len(cols) == len(vals) && s.K%2 == 0 && !s.X {
 					q = "INSERT INTO t VALUES (" + strings.Join(lits, ", ") + ")"
 				}
 				sr.SQL = q
@@ -345,10 +349,14 @@ func run(req request) result {
 				}
 			} else {
 				st := sql.InsertStatement{TableName: "t"}
-				if s.K%2 == 1 {
+				if s.K%2 == 1 || s.X {
 					for j := range vals {
 						st.InsertColumnsAndSource.InsertColumnList.ColumnNames = append(st.InsertColumnsAndSource.InsertColumnList.ColumnNames, colName(j+1))
 					}
+				}
+				if s.X {
+					st.InsertColumnsAndSource.InsertColumnList.ColumnNames = append(st.InsertColumnsAndSource.InsertColumnList.ColumnNames, "zz")
+					vals = append(vals, int64(1))
 				}
 				st.InsertColumnsAndSource.QueryExpression = sql.TableValueConstructor{
 					TableValueConstructorList: []sql.RowValueConstructor{{RowValueConstructorList: vals}}}
@@ -373,6 +381,10 @@ func run(req request) result {
 					}
 					parts = append(parts, colName(it.C)+" = "+l)
 				}
+			}
+			if s.X {
+				sets = append(sets, sql.SetClause{ObjectColumn: "zz", UpdateSource: int64(1)})
+				parts = append(parts, "zz = 1")
 			}
 			if req.Path == "text" {
 				q := "UPDATE t SET " + strings.Join(parts, ", ")
